@@ -450,6 +450,75 @@ func raceChild(seed int64, tier string) {
 	}
 }
 
+// racingVerify: Verify(remember) of a leaf races with a Modify that deletes a neighbour of that leaf.
+// Whatever the order, afterwards the forest must have the roots of the block applied once (a Stump
+// updated serially is the yardstick) and must still prove what it remembers.
+func racingVerify(seed int64, tier string) {
+	rng := rand.New(rand.NewSource(seed + 77))
+	rounds := 400
+	if tier == "thorough" {
+		rounds = 4000
+	}
+	for round := 0; round < rounds; round++ {
+		rf := &refForest{}
+		m := u.NewMapPollard(false)
+		m.TotalRows = []uint8{0, 63}[round%2]
+		st := u.Stump{}
+		adds := freshLeaves(4 + rng.Intn(12))
+		l := toLeaves(adds)
+		for i := range l {
+			l[i].Remember = true
+		}
+		m.Modify(l, nil, u.Proof{})
+		st.Update(nil, adds, u.Proof{})
+		rf.apply(nil, adds)
+		for step := 0; step < 6; step++ {
+			live := rf.liveHashes()
+			if len(live) < 3 {
+				break
+			}
+			x := live[rng.Intn(len(live))]
+			var y u.Hash
+			for {
+				y = live[rng.Intn(len(live))]
+				if y != x {
+					break
+				}
+			}
+			px, _ := rf.prove([]u.Hash{x})
+			py, _ := rf.prove([]u.Hash{y})
+			var wg sync.WaitGroup
+			wg.Add(2)
+			start := make(chan struct{})
+			go func() {
+				defer wg.Done()
+				<-start
+				m.Verify([]u.Hash{x}, px, true)
+			}()
+			go func() {
+				defer wg.Done()
+				<-start
+				m.Modify(nil, []u.Hash{y}, py)
+			}()
+			close(start)
+			wg.Wait()
+			st.Update([]u.Hash{y}, nil, py)
+			rf.apply([]u.Hash{y}, nil)
+			if !eqHashes(m.GetRoots(), st.Roots) {
+				fmt.Fprintf(os.Stderr, "VERIF-DIVERGED roots of the map forest differ from the serially updated stump after a Verify(remember) raced with a Modify (round %d step %d)\n", round, step)
+				return
+			}
+			// what the forest hands out must verify against the true state
+			if p, err := m.Prove([]u.Hash{x}); err == nil {
+				if _, err := u.Verify(st, []u.Hash{x}, p); err != nil {
+					fmt.Fprintf(os.Stderr, "VERIF-DIVERGED map forest hands out a proof that does not verify after a Verify(remember) raced with a Modify (round %d step %d)\n", round, step)
+					return
+				}
+			}
+		}
+	}
+}
+
 var raceFn = regexp.MustCompile(`github.com/utreexo/utreexo\.\(\*MapPollard\)\.(\w+)\(\)`)
 
 func genC12(cfg runCfg, e *emitter, rng *rand.Rand) {
@@ -496,6 +565,11 @@ func genC12(cfg runCfg, e *emitter, rng *rand.Rand) {
 		if !seen[key] {
 			seen[key] = true
 			e.hfail("race", "data race reported by the race detector involving MapPollard methods {%s}", key)
+		}
+	}
+	for _, l := range strings.Split(stderr.String(), "\n") {
+		if strings.HasPrefix(l, "VERIF-DIVERGED") {
+			e.hfail("mixed-state.racing-verify", "%s", l)
 		}
 	}
 	e.stats["race_reports"] = len(reports) - 1
